@@ -1,8 +1,8 @@
-\* exhaustive: directory without an entry of its own (e/f), missing paths, the root, an empty file
+\* exhaustive: two directory levels, hard links inside one sub-directory and across sub-directories (u/, u/v/, u/v/x, u/v/y->u/v/x, u/w/z->/u/v/x)
 CONSTANTS
-    UseEntries = {1, 2, 3, 4, 5, 11}
-    PrioAlphabet = {"e/f", "a/x", "./a/c", "/", "e", "d"}
-    MaxTar = 3
+    UseEntries = {17, 18, 19, 20, 21}
+    PrioAlphabet = {"u/v/y", "./u/w/z", "/u/v/x", "u/v/"}
+    MaxTar = 4
     MaxPrio = 2
     WithLayout = FALSE
     LayoutOpts <- OptsNone
